@@ -29,7 +29,7 @@ func ProfileByName(name string) *Profile {
 		p.MemoPct = 0
 		p.W[KAlt] = 18
 		p.W[KStar], p.W[KPlus], p.W[KOpt] = 8, 7, 8
-		p.W[KAnd], p.W[KNot] = 5, 6
+		p.W[KAnd], p.W[KNot] = 9, 11
 		p.EntryPct = 15
 		p.Inputs = 5
 	case "c02": // code-block context
@@ -136,6 +136,21 @@ func ProfileByName(name string) *Profile {
 		p.NonAscii = false
 		p.Throw = true
 		p.W[KRec], p.W[KThrow] = 5, 6
+	case "c09": // -optimize-grammar: shared leaf rules, nested choices/sequences, literal/class mixes
+		p.MaxRules = 5
+		p.MemoPct = 0
+		p.W[KRef] = 30
+		p.W[KLit] = 34
+		p.W[KCls] = 16
+		p.W[KSeq] = 22
+		p.W[KAlt] = 22
+		p.W[KAct] = 10
+		p.IgnoreCase = 25
+		p.NoStaleCtx = true
+		p.BudgetPct = 0
+		p.EntryPct = 0
+		p.Inputs = 5
+		p.Tmpls = tmplsWhere(func(t Tmpl) bool { return !t.LR && !t.BL })
 	case "c18": // concurrency: state-using grammars, many inputs per grammar
 		p.State = true
 		p.W[KStC] = 8
